@@ -171,7 +171,7 @@ pub fn check(sc: &Scenario, ex: &mut Exec) -> (Verdict, Option<String>) {
         return (Verdict::Skip("no_noise_in_rewriting".into()), None);
     }
     let own = owners::owners(sc);
-    let units = pick_units(sc, &own, 4);
+    let units = pick_units(sc, &own, if sc.depth > 0 { 12 } else { 4 });
     if units.is_empty() {
         return (Verdict::Skip("no_units".into()), None);
     }
